@@ -191,7 +191,9 @@ def spaceOne (s d : α) (mode : SpaceMode) (iv : Iv α) : Option (List (Iv α)) 
   else if s ≤ iv.s then some [⟨iv.s + d, iv.e + d, iv.l⟩]
   else match mode with
     | .stretch => some [⟨iv.s, iv.e + d, iv.l⟩]
-    | .split => some [⟨iv.s, s, iv.l⟩, ⟨s + d, iv.e + d, iv.l⟩]
+    | .split =>
+      -- the right-hand remainder is kept unless it rounds to nothing (repair in /repo; never the case in exact arithmetic)
+      if s + d < iv.e + d then some [⟨iv.s, s, iv.l⟩, ⟨s + d, iv.e + d, iv.l⟩] else some [⟨iv.s, s, iv.l⟩]
     | .noChange => some [iv]
     | .error => none
 
